@@ -32,6 +32,10 @@ type C06Scenario struct {
 	// printed is the final result (the periodic and the final report share the
 	// printing path)
 	Stdout bool `json:"stdout,omitempty"`
+	// Broken: that many files among the readable ones pass the glob and the
+	// permission check but cannot be read (an empty or cut-off .gz, as during
+	// log rotation): they contribute no line, and the run ends all the same
+	Broken []string `json:"broken,omitempty"`
 	// HoldCommandsMs: counterfactual of the late-command finding (see c02.go)
 	HoldCommandsMs int `json:"hold_commands_ms,omitempty"`
 }
@@ -111,6 +115,20 @@ func c06Gen(r *Rand, tier string, i int) Scenario {
 	}
 	if many {
 		sc.Commands = []string{"m/*.log"}
+	}
+	if !many && r.Bool(0.1) {
+		nb := PickOf(r, 1, 1, 2)
+		for b := 0; b < nb; b++ {
+			name := fmt.Sprintf("m/%s%d.log.gz", PickOf(r, "a", "f1x", "z"), b)
+			sc.Broken = append(sc.Broken, name)
+			if len(sc.Commands) != 1 || sc.Commands[0] != "m/*" {
+				if sc.Commands[0] == "m/*.log" {
+					sc.Commands = []string{"m/*"}
+				} else {
+					sc.Commands = append(sc.Commands, name)
+				}
+			}
+		}
 	}
 	switch r.Intn(4) {
 	case 0:
@@ -253,6 +271,14 @@ func c06Run(t *testing.T, s Scenario, src verifsim.DecisionSource, keep bool) *R
 		for f := range sc.Files {
 			w.WriteFile(fmt.Sprintf("m/f%d.log", f), sc.content(f))
 		}
+		for b, name := range sc.Broken {
+			// empty, or the first bytes of a gzip stream only
+			var content []byte
+			if b%2 == 1 {
+				content = compress("gz", []byte("g=G0|n=1|f=0|i=1\n"))[:7]
+			}
+			w.WriteFile(name, content)
+		}
 		out := w.Dir + "/out.csv"
 		a := DefaultArgs()
 		a.NoColor = true
@@ -379,7 +405,7 @@ func c06Shape(s Scenario) string {
 	for _, sp := range sc.Stalls {
 		st = append(st, fmt.Sprintf("%s@%d+%d", sp.Name, sp.From, sp.DurMs))
 	}
-	return fmt.Sprintf("%s/stdout=%v/h%d/cats%d/files%v/cmds%d/g%d/i%d/%s/lat%d", sc.Transport, sc.Stdout, sc.Hosts, sc.Cfg.MaxCats, sc.Files, len(sc.Commands), sc.Groups, sc.Interval,
+	return fmt.Sprintf("%s/stdout=%v/h%d/cats%d/files%v/broken%d/cmds%d/g%d/i%d/%s/lat%d", sc.Transport, sc.Stdout, sc.Hosts, sc.Cfg.MaxCats, sc.Files, len(sc.Broken), len(sc.Commands), sc.Groups, sc.Interval,
 		strings.Join(st, ","), sc.Net.LatencyMs)
 }
 
